@@ -1385,6 +1385,9 @@ example : isNumber [48, 57, 46, 53] = true ∧ acceptsNumber [48, 57, 46, 53] = 
 example : isNumber [48, 57, 106] = true ∧ acceptsNumber [48, 57, 106] = true := by decide               -- 09j
 example : isNumber [48, 101, 49] = true ∧ acceptsNumber [48, 101, 49] = true := by decide               -- 0e1
 example : isNumber [48, 57] = false ∧ acceptsNumber [48, 57] = false := by decide                       -- 09
+example : isNumber [48, 48] = true ∧ acceptsNumber [48, 48] = true := by decide                         -- 00
+example : isNumber [49, 101, 95, 49] = false ∧ acceptsNumber [49, 101, 95, 49] = false := by decide     -- 1e_1
+example : isNumber [49, 95, 95, 48] = false ∧ acceptsNumber [49, 95, 95, 48] = false := by decide       -- 1__0
 example : startsNumber [49, 46, 53, 101, 45, 51, 74] = true ∧ isNumber [49, 46, 53, 101, 45, 51, 74] = true := by decide  -- 1.5e-3J
 -- a literal followed by characters that do not extend it is taken and the rest is left (NOT an error):
 example : lexRest [49, 95] = .ok [95] ∧ numMalformed [49, 95] = false := ⟨rfl, by decide⟩               -- 1_
